@@ -109,6 +109,13 @@ func inprocCases(c *core.Ctx) []Case {
 	for i := 0; i < c.Pick(25, 1500); i++ {
 		add("parquet", randN(), "")
 	}
+	// first-field files (firstfield.go); appended last so that the ids above stay what they were
+	for v := 0; v < 6; v++ {
+		add("csv", v, "firstfield")
+		add("csv", v+6, "firstfield-noheader")
+		add("tsv", v+12, "firstfield")
+		add("tsv", v+18, "firstfield-noheader")
+	}
 	return cs
 }
 
